@@ -120,6 +120,7 @@ Cands ==
   \* C06
   \cup {Op("reextent", s, 0, x, 0, NoW) : s \in LiveS, x \in Exts}
   \cup {Op("reextent_fill", s, 0, x, v, NoW) : s \in LiveS, x \in Exts, v \in {8}}
+  \cup {Op("reextent_move", s, 0, x, 0, NoW) : s \in LiveS, x \in Exts}
   \cup {Op("clear", s, 0, NoX, 0, NoW) : s \in LiveS}
   \cup {Op("assign_empty", s, 0, NoX, 0, NoW) : s \in LiveS}
   \cup UNION {{Op("reshape", s, 0, x, 0, NoW) : x \in {y \in Exts : Prod(y.shape) = NE(arr[s]) /\ NE(arr[s]) > 0}} : s \in LiveS}
@@ -150,6 +151,8 @@ Result(o) ==   \* new value of slot o.s
     [] o.op = "destroy"       -> Dead
     [] o.op = "reextent"      -> ReextentF(arr[o.s], o.x, DefaultV)
     [] o.op = "reextent_fill" -> ReextentF(arr[o.s], o.x, o.v)
+    \* std::move(a).reextent(x): the rvalue overload promises the new extents only; element values are unspecified
+    [] o.op = "reextent_move" -> IF o.x.shape = arr[o.s].shape /\ o.x.first = arr[o.s].first THEN arr[o.s] ELSE FillArr(o.x, U)
     [] o.op \in {"clear", "assign_empty"} -> EmptyArr
     [] o.op = "reshape"       -> Arr(o.x.shape, o.x.first, arr[o.s].val)
     [] o.op = "assign_fill"   -> FillArr(o.x, o.v)
